@@ -259,8 +259,22 @@ func sseLine(e ev) string {
 		return "data: [DONE]\n\n"
 	case "comment":
 		return ": keep-alive\n\n"
+	case "noise":
+		return e.text
 	}
 	return ""
+}
+
+// noiseLines: lines that are well-formed SSE and carry no delta - JSON objects without a choices member (an empty object,
+// an id-only chunk, an error object as some backends emit mid-stream), an empty data line, an unknown field. None of them
+// may change what the client receives.
+var noiseLines = []string{
+	"data: {}\n\n",
+	"data: {\"id\":\"c1\",\"object\":\"chat.completion.chunk\",\"model\":\"m-stream\"}\n\n",
+	"data: {\"error\":{\"message\":\"slot busy, retrying\",\"type\":\"server_error\"}}\n\n",
+	"data: \n\n",
+	"event: ping\ndata: {\"type\":\"ping\"}\n\n",
+	"data: {\"id\":\"c1\",\"choices\":[]}\n\n",
 }
 
 type expect struct {
@@ -729,6 +743,17 @@ func e2() {
 								sb2.WriteString(sseLine(e))
 							}
 							judge("E2-malformed-injected", s2, sb2.String(), 0, true, x)
+							for _, nl := range noiseLines {
+								var s3 []ev
+								s3 = append(s3, seq[:pos]...)
+								s3 = append(s3, ev{kind: "noise", text: nl})
+								s3 = append(s3, seq[pos:]...)
+								var sb3 strings.Builder
+								for _, e := range s3 {
+									sb3.WriteString(sseLine(e))
+								}
+								judge("E2-noise-injected", s3, sb3.String(), 0, true, x)
+							}
 						}
 						if idx%211 == 3 {
 							res.Sample(map[string]any{"part": "E2", "events": seqStr(seq)})
